@@ -13,6 +13,7 @@ mod model;
 mod ops;
 mod oracle;
 mod plan;
+mod queries;
 mod rng;
 mod session;
 mod world;
